@@ -43,6 +43,10 @@ pub struct SeqCfg {
     pub alt_thread_from: usize,
     /// do not merge histories that reach the same (dump, model) state
     pub no_dedup: bool,
+    /// commands from this alphabet index on are sent over a second connection of the same server
+    /// (its own handler and decoder; strictly one command at a time): which connection a command
+    /// arrives on is the client's business, not the store's (0 = one connection)
+    pub alt_conn_from: usize,
     /// non-initial start states: histories (alphabet indices, no victim choices) whose every step is
     /// judged once and from whose end states the exploration starts as well as from the empty store
     pub roots: Vec<Vec<u16>>,
@@ -77,6 +81,8 @@ pub struct Runner<'a> {
     /// the second worker thread of this runner (configurations with `alt_thread_from`): it lives as
     /// long as the runner, like a server's worker thread
     helper: Option<Helper>,
+    /// the second connection (configurations with `alt_conn_from`)
+    conn2: Option<Conn>,
     /// commands applied so far (breadcrumb for a process abort)
     trail: Vec<(u16, Vec<u8>)>,
 }
@@ -151,7 +157,8 @@ impl<'a> Runner<'a> {
         model.now = cfg.start_time;
         model.item_limit = Some(cfg.sut.item_limit);
         let helper = if cfg.alt_thread_from > 0 { Some(Helper::start()) } else { None };
-        Runner { cfg, world, conn, model, helper, trail: vec![] }
+        let conn2 = if cfg.alt_conn_from > 0 { Some(world.conn()) } else { None };
+        Runner { cfg, world, conn, model, helper, conn2, trail: vec![] }
     }
 
     pub fn apply(&mut self, idx: usize, choices: &[u8]) -> Applied {
@@ -234,6 +241,10 @@ impl<'a> Runner<'a> {
             let h = self.helper.as_ref().expect("helper thread");
             h.tx.send((&mut self.conn as *mut Conn as usize, bytes.clone(), prefix)).expect("helper thread alive");
             h.rx.recv().expect("helper thread answered")
+        } else if self.cfg.alt_conn_from > 0 && idx >= self.cfg.alt_conn_from {
+            explore::begin(prefix);
+            let out = self.conn2.as_mut().expect("second connection").exec(&bytes);
+            (out, explore::end())
         } else {
             explore::begin(prefix);
             let out = self.conn.exec(&bytes);
